@@ -6,7 +6,7 @@ import ast
 from ..interp import Interp
 from ..lib import is_call, loc
 from ..repo import walk_scope
-from ..terms import App, Atom, BoundMethod, Closure, EnumVal, Obj, Partial, Sym, vkey
+from ..terms import App, Atom, BoundMethod, Closure, EnumVal, Obj, Partial, Sym, mentions, subterms, vkey
 from .common import callers_of, scan
 
 DS = "cascade.shm.dataset"
@@ -99,6 +99,46 @@ def r_add(ctx):
                         continue
                     ctx.ok("C08.R1", loc(fi), f"admission | {atoms} -> {want[0]!r}")
     ctx.table("C08.R1", table)
+
+
+def r_segment_name(ctx):
+    """C09.R12: the segment a key's bytes live in is named after the key (and only recorded once): the name stored in the
+    dataset record is the one handed to the writer, and it is computed from the key, so two keys never share a segment."""
+    repo = ctx.repo
+    fi = repo.func(f"{DS}.Manager.add")
+    ctx.analysed(fi.qual)
+    rid = "C09.R12"
+    env = {"self.datasets": {}, "self.capacity": 10, "self.free_space": 10, "self.prefix": "p"}
+    paths = Interp(repo, call_models=MODELS).explore(fi, env=env, args={"key": Sym("key"), "size": 3, "deser_fun": "df"})
+    ctx.evals(len(paths))
+    granted = [p for p in paths if p.exit[0] == "return" and isinstance(p.exit[1], tuple) and len(p.exit[1]) == 2 and p.exit[1][1] == ""]
+    if not granted:
+        ctx.undecided(rid, loc(fi), f"no granting path of Manager.add on a symbolic key: {[(p.exit[0], vkey(p.exit[1])[:60]) for p in paths]}")
+        return
+    for p in granted:
+        name = p.exit[1][0]
+        recs = [v for v in (p.heap.get("self.datasets") or {}).values() if isinstance(v, Obj)]
+        if len(recs) != 1 or vkey(recs[0].fields.get("shmid")) != vkey(name):
+            ctx.violation(rid, fi.qual, loc(fi), "name handed out = name recorded", f"add returns segment {vkey(name)[:90]} but records "
+                          f"{[vkey(r.fields.get('shmid'))[:90] for r in recs]}: readers would attach a different segment than the writer filled")
+            return
+        # key dependence: the name mentions the key, or a hash object in it was fed the key before being read
+        dep = mentions(name, "key")
+        if not dep:
+            hs = [t for t in subterms(name) if isinstance(t, App) and t.uid is not None]
+            for e in p.effects:
+                if e.kind == "call" and e.data.get("method") in ("update",) and any(vkey(e.data.get("recv")) == vkey(h) for h in hs) \
+                        and any(mentions(a, "key") for a in e.data["args"]):
+                    dep = True
+        if not dep:
+            ctx.violation(rid, fi.qual, loc(fi), "segment name derived from the key", f"the segment name {vkey(name)[:100]} does not depend on the key: "
+                          f"every dataset would be written to the same shared-memory segment")
+            return
+        if not mentions(name, "self.prefix") and "'p'" not in vkey(name):
+            ctx.violation(rid, fi.qual, loc(fi), "segment name carries the store prefix", f"the segment name {vkey(name)[:100]} lacks the store's prefix "
+                          f"(stores of different hosts on one machine would collide)")
+            return
+    ctx.ok(rid, loc(fi), "segment name: recorded == returned, derived from the key and the prefix")
 
 
 def r_get_pagein(ctx):
@@ -641,3 +681,285 @@ def r_reader_ids(ctx):
                       f"history open->{ids[0]!r}, open->{ids[1]!r}, close {ids[0]!r}, open->{ids[2]!r}: open readers recorded {sorted(open_now)} — two live readers must have two distinct ids")
     else:
         ctx.ok(rid, loc(fi), "a new reader never receives the id of a reader that is still open")
+
+
+# ---------------------------------------------------------------------------------- server dispatch / client protocol
+SRV = "cascade.shm.server.LocalServer"
+API = "cascade.shm.api"
+CLI = "cascade.shm.client"
+
+
+def _serve_one(repo, payload, env=None, add=None, get=None, raising=None):
+    """One iteration of LocalServer.start on `payload` (the next message is a shutdown, which ends the loop).
+    Returns (paths, client atom)."""
+    client = Atom("client-1")
+
+    def m_receive(run, a, k, n, f):
+        c = getattr(run, "_rcv", 0)
+        run._rcv = c + 1
+        if c == 0:
+            return (payload, client)
+        return (Obj(f"{API}.ShutdownCommand", {}, name="shutdown"), Atom("client-2"))
+
+    models = dict(MODELS)
+    models[f"{SRV}.receive"] = m_receive
+    if add is not None:
+        models[f"{DS}.Manager.add"] = lambda run, a, k, n, f: add
+    if get is not None:
+        models[f"{DS}.Manager.get"] = lambda run, a, k, n, f: get
+    e = {"self.manager.free_space": 77, "self.manager.datasets": {}}
+    e.update(env or {})
+    ip = Interp(repo, call_models=models, opaque={f"{SRV}.respond", f"{DS}.Manager.close_callback", f"{DS}.Manager.purge"},
+                raising=raising, max_while=3)
+    return ip.explore(repo.func(f"{SRV}.start"), env=e, args={}), client
+
+
+def _responses(p):
+    """(response value, destination) of every answer the server loop sends on this path, in order."""
+    out = []
+    for e in p.effects:
+        if is_call(e, qual=f"{SRV}.respond") and len(e.data["args"]) >= 2:
+            out.append((e.data["args"][0], e.data["args"][1]))
+        elif e.kind == "call" and e.data.get("method") == "sendto" and len(e.data["args"]) >= 2:
+            a0 = e.data["args"][0]
+            if isinstance(a0, App) and a0.fname.endswith("ser") and a0.args:
+                out.append((a0.args[0], e.data["args"][1]))
+    return out
+
+
+def r_server_dispatch(ctx):
+    """C08.R5 / C09.R10: every request type is served by the matching Manager operation on the request's own fields, and the
+    operation's verdict travels back to the requesting client unchanged ('wait' stays 'wait', a grant carries the segment)."""
+    repo = ctx.repo
+    fi = repo.func(f"{SRV}.start")
+    ctx.analysed(fi.qual)
+    rid = "C08.R5" if ctx.pid == "C08" else "C09.R10"
+    L = loc(fi)
+
+    def req(cls, **f):
+        return Obj(f"{API}.{cls}", f, name=cls, frozen=False)
+
+    def one(name, payload, want_call, want_resp, **kw):
+        """want_call: (qual, args) or None; want_resp: (class, {field: value})"""
+        paths, client = _serve_one(repo, payload, **kw)
+        ctx.evals(len(paths))
+        if not paths:
+            ctx.undecided(rid, L, f"{name}: no path through the server loop")
+            return
+        for p in paths:
+            rs = _responses(p)
+            if p.exit[0] != "return":
+                ctx.violation(rid, fi.qual, L, f"{name}: server loop survives", f"{name}: the server loop ends with {p.exit[0]} {vkey(p.exit[1])[:80]} "
+                              f"instead of answering and going on to the next request", row={"request": name})
+                return
+            if want_call is not None:
+                cq, cargs = want_call
+                calls = [e for e in p.effects if is_call(e, qual=cq)]
+                if len(calls) != 1 or list(calls[0].data["args"]) + [v for _, v in sorted(calls[0].data["kwargs"].items())] != list(cargs):
+                    ctx.violation(rid, fi.qual, L, f"{name}: operation performed",
+                                  f"{name}: expected exactly one {cq.rsplit('.', 2)[-2]}.{cq.rsplit('.', 1)[-1]}({', '.join(vkey(a) for a in cargs)}); the loop performs "
+                                  f"{[(vkey(c.data['args']), vkey(c.data['kwargs'])) for c in calls]}", row={"request": name})
+                    return
+            mine = [r for r, dst in rs if dst is client]
+            if len(mine) != 1:
+                ctx.violation(rid, fi.qual, L, f"{name}: answered once", f"{name}: {len(mine)} answers are sent to the requesting client "
+                              f"(all answers: {[(vkey(r)[:60], vkey(d)) for r, d in rs]}) — the client blocks on recv for exactly one", row={"request": name})
+                return
+            r = mine[0]
+            rc, rf = want_resp
+            if not (isinstance(r, Obj) and r.cls == f"{API}.{rc}"):
+                ctx.violation(rid, fi.qual, L, f"{name}: answer type", f"{name}: answer is {vkey(r)[:100]}, expected a {rc}", row={"request": name})
+                return
+            bad = {k: (vkey(r.fields.get(k)), vkey(v)) for k, v in rf.items() if vkey(r.fields.get(k)) != vkey(v)}
+            if bad:
+                ctx.violation(rid, fi.qual, L, f"{name}: answer content", f"{name}: answer fields differ from the operation's verdict (got, expected): {bad}",
+                              row={"request": name})
+                return
+        ctx.ok(rid, L, f"server dispatch | {name}")
+
+    M = f"{DS}.Manager"
+    one("allocate granted", req("AllocateRequest", key="k", l=7, deser_fun="df"), (f"{M}.add", ["k", 7, "df"]),
+        ("AllocateResponse", {"shmid": "shm-x", "error": ""}), add=("shm-x", ""))
+    for err in ("wait", "conflict", "capacity exceeded"):
+        one(f"allocate answered {err!r}", req("AllocateRequest", key="k", l=7, deser_fun="df"), (f"{M}.add", ["k", 7, "df"]),
+            ("AllocateResponse", {"shmid": "", "error": err}), add=("", err))
+    one("get granted", req("GetRequest", key="k"), (f"{M}.get", ["k"]),
+        ("GetResponse", {"shmid": "shm-x", "l": 4, "rdid": "r1", "deser_fun": "df", "error": ""}), get=("shm-x", 4, "r1", "df", ""))
+    one("get answered 'wait'", req("GetRequest", key="k"), (f"{M}.get", ["k"]), ("GetResponse", {"shmid": "", "error": "wait"}), get=("", 0, "", "", "wait"))
+    one("close (reader r1)", req("CloseCallback", key="k", rdid="r1"), (f"{M}.close_callback", ["k", "r1"]), ("OkResponse", {"error": ""}))
+    one("close (writer)", req("CloseCallback", key="k", rdid=""), (f"{M}.close_callback", ["k", ""]), ("OkResponse", {"error": ""}))
+    one("purge", req("PurgeRequest", key="k"), (f"{M}.purge", ["k"]), ("OkResponse", {"error": ""}))
+    one("free space", req("FreeSpaceRequest"), None, ("FreeSpaceResponse", {"free_space": 77}))
+    one("status inquiry", req("StatusInquiry"), None, ("OkResponse", {"error": ""}))
+    for status in (None,) + STATES:
+        env = {"self.manager.datasets": {"k": dset(status, name="d")} if status else {}}
+        want = EnumVal(f"{API}.DatasetStatus", "not_present" if status in (None, "created") else "ready")
+        one(f"dataset status ({status or 'absent'})", req("DatasetStatusRequest", key="k"), None, ("DatasetStatusResponse", {"status": want}), env=env)
+    # a failing operation is reported to the client and does not take the server down
+    for opq, payload in ((f"{M}.purge", req("PurgeRequest", key="k")), (f"{M}.close_callback", req("CloseCallback", key="k", rdid="r1"))):
+        paths, client = _serve_one(repo, payload, raising=lambda d, q=opq: d.get("qual") == q)
+        ctx.evals(len(paths))
+        failing = [p for p in paths if any(e.kind == "raise" and e.data.get("from_call") for e in p.effects)]
+        if not failing:
+            ctx.undecided(rid, L, f"no path on which {opq} fails was explored")
+            continue
+        okk = True
+        for p in failing:
+            mine = [r for r, dst in _responses(p) if dst is client]
+            if p.exit[0] != "return" or len(mine) != 1 or not isinstance(mine[0], Obj) or mine[0].fields.get("error") in ("", None):
+                ctx.violation(rid, fi.qual, L, f"failure of {opq.rsplit('.', 1)[-1]} reported",
+                              f"when {opq} raises, the loop ends with {p.exit[0]} and answers {[vkey(m)[:80] for m in mine]}; expected: one answer carrying the "
+                              f"error, and the server keeps serving (every other dataset stays reachable)", row={"op": opq})
+                okk = False
+                break
+        if okk:
+            ctx.ok(rid, L, f"server dispatch | failure of {opq.rsplit('.', 1)[-1]} is answered with an error, the loop continues")
+
+
+def _cmd_model(log_attr="_cmds"):
+    def m(run, a, k, n, f):
+        comm = a[0] if a else k.get("comm")
+        lst = getattr(run, log_attr, None)
+        if lst is None:
+            lst = []
+            setattr(run, log_attr, lst)
+        lst.append(comm)
+        cls = comm.cls.rsplit(".", 1)[-1] if isinstance(comm, Obj) else ""
+        if cls == "AllocateRequest":
+            return Obj(f"{API}.AllocateResponse", {"shmid": "shm-x", "error": ""}, name="alloc-resp")
+        if cls == "GetRequest":
+            return Obj(f"{API}.GetResponse", {"shmid": "shm-x", "l": 4, "rdid": "r1", "deser_fun": "df2", "error": ""}, name="get-resp")
+        return Obj(f"{API}.OkResponse", {"error": ""}, name="ok-resp")
+    return m
+
+
+def r_client_protocol(ctx):
+    """C09.R11: the client side of the protocol: allocate/get attach the segment the server named, with the size it named; closing
+    a buffer tells the server exactly once who closed (writer: empty reader id; reader: the id it was given); and a 'wait'
+    answer is retried instead of being returned or raised."""
+    repo = ctx.repo
+    rid = "C09.R11"
+    INLINE = {f"{CLI}.AllocatedBuffer.__init__", f"{CLI}.close_callback"}
+    for op, args, want_req, want_shm, want_close in (
+        ("allocate", {"key": "k", "l": 7, "deser_fun": "df"}, ("AllocateRequest", {"key": "k", "l": 7, "deser_fun": "df"}),
+         (["shm-x"], {"create": True, "size": 7}), {"key": "k", "rdid": ""}),
+        ("get", {"key": "k"}, ("GetRequest", {"key": "k"}), (["shm-x"], {"create": False, "size": 4}), {"key": "k", "rdid": "r1"}),
+    ):
+        fi = repo.func(f"{CLI}.{op}")
+        ctx.analysed(fi.qual)
+        L = loc(fi)
+        ip = Interp(repo, call_models={**MODELS, f"{CLI}._send_command": _cmd_model()}, inline=INLINE)
+        paths = ip.explore(fi, env={}, args=dict(args))
+        ctx.evals(len(paths))
+        if len(paths) != 1 or paths[0].exit[0] != "return" or not isinstance(paths[0].exit[1], Obj):
+            ctx.undecided(rid, L, f"client.{op} is not a straight-line constructor of a buffer: {[(p.exit[0], vkey(p.exit[1])[:60]) for p in paths]}")
+            continue
+        p = paths[0]
+        buf = p.exit[1]
+        cmds = [e.data["args"][0] for e in p.effects if is_call(e, qual=f"{CLI}._send_command") and e.data["args"]]
+        if len(cmds) != 1 or not isinstance(cmds[0], Obj) or cmds[0].cls != f"{API}.{want_req[0]}" or \
+                {k: cmds[0].fields.get(k) for k in want_req[1]} != want_req[1]:
+            ctx.violation(rid, fi.qual, L, f"{op}: request sent", f"client.{op}({args}) sends {[vkey(c)[:100] for c in cmds]} "
+                          f"({[vkey(getattr(c, 'fields', None))[:100] for c in cmds]}); expected one {want_req[0]} with {want_req[1]}", row={"op": op})
+            continue
+        shm_calls = [e for e in p.effects if e.kind == "call" and (e.data.get("name") or "").endswith("SharedMemory")]
+        got = [(list(e.data["args"]), dict(e.data["kwargs"])) for e in shm_calls]
+        norm = []
+        for a, k in got:
+            k = dict(k)
+            names = ["name", "create", "size"]
+            for i, v in enumerate(a):
+                k[names[i]] = v
+            norm.append(k)
+        wantk = {"name": want_shm[0][0], **want_shm[1]}
+        if len(norm) != 1 or {x: norm[0].get(x) for x in wantk} != wantk:
+            ctx.violation(rid, fi.qual, L, f"{op}: segment attached", f"client.{op} attaches {got}; expected the segment the server named, "
+                          f"SharedMemory('shm-x', create={want_shm[1]['create']}, size={want_shm[1]['size']}) — a reader must map exactly the bytes written "
+                          f"and must never create the segment", row={"op": op})
+            continue
+        ci = repo.classes[f"{CLI}.AllocatedBuffer"]
+        cfi = repo.func(f"{CLI}.AllocatedBuffer.close")
+        ctx.analysed(cfi.qual)
+        env = {f"self.{k}": v for k, v in buf.fields.items()}
+        if "self.shm" not in env:
+            ctx.undecided(rid, L, f"client.{op}: the buffer object built does not record its segment (fields {sorted(buf.fields)})")
+            continue
+        if isinstance(env["self.shm"], App):
+            env["self.shm"] = Obj("multiprocessing.shared_memory.SharedMemory", {"_name": "shm-x"}, name="segment")  # a constructed object, never None
+        heap = env
+        sent_total = []
+        okk = True
+        for round_ in (1, 2):
+            ip2 = Interp(repo, call_models={**MODELS, f"{CLI}._send_command": _cmd_model()}, inline=INLINE)
+            ps2 = ip2.explore(cfi, env=heap, args={})
+            ctx.evals(len(ps2))
+            if len(ps2) != 1 or ps2[0].exit[0] != "return":
+                ctx.violation(rid, cfi.qual, loc(cfi), f"{op}: close #{round_} completes", f"closing the buffer of client.{op} (time #{round_}) ends "
+                              f"{[(q.exit[0], vkey(q.exit[1])[:60]) for q in ps2]}", row={"op": op, "close": round_})
+                okk = False
+                break
+            q = ps2[0]
+            sent = [e.data["args"][0] for e in q.effects if is_call(e, qual=f"{CLI}._send_command") and e.data["args"]]
+            sent_total += sent
+            if round_ == 1:
+                good = len(sent) == 1 and isinstance(sent[0], Obj) and sent[0].cls == f"{API}.CloseCallback" and \
+                    {k: sent[0].fields.get(k) for k in want_close} == want_close
+                if not good:
+                    ctx.violation(rid, cfi.qual, loc(cfi), f"{op}: close notifies the server",
+                                  f"closing the buffer of client.{op} sends {[(vkey(s), vkey(getattr(s, 'fields', None))) for s in sent]}; expected one "
+                                  f"CloseCallback{want_close} — the server's reader/writer accounting for the dataset depends on it", row={"op": op})
+                    okk = False
+                    break
+            elif sent:
+                ctx.violation(rid, cfi.qual, loc(cfi), f"{op}: close is idempotent", f"a second close of the same buffer sends {[vkey(s) for s in sent]} again",
+                              row={"op": op})
+                okk = False
+                break
+            heap = {k: v for k, v in q.heap.items() if k.startswith("self.")}
+        if okk:
+            ctx.ok(rid, L, f"client.{op}: request, segment attachment and close notification agree with the server's answer")
+    # readers get a read-only view
+    vfi = repo.func(f"{CLI}.AllocatedBuffer.view")
+    ctx.analysed(vfi.qual)
+    for ro in (True, False):
+        ps = Interp(repo, call_models=MODELS).explore(vfi, env={"self.shm": Obj("SharedMemory", {"buf": Sym("BUF")}, name="shm"), "self.l": 4, "self.readonly": ro}, args={})
+        ctx.evals(len(ps))
+        for p in ps:
+            tro = any(e.kind == "call" and e.data.get("method") == "toreadonly" for e in p.effects)
+            if p.exit[0] != "return" or tro != ro or (ro and "toreadonly" not in vkey(p.exit[1])):
+                ctx.violation(rid, vfi.qual, loc(vfi), f"view readonly={ro}", f"view() of a {'reader' if ro else 'writer'} buffer ends {p.exit[0]} {vkey(p.exit[1])[:80]}, "
+                              f"read-only conversion applied={tro}", row={"readonly": ro})
+                break
+        else:
+            ctx.ok(rid, loc(vfi), f"view | readonly={ro}")
+    # 'wait' is retried
+    sfi = repo.func(f"{CLI}._send_command")
+    ctx.analysed(sfi.qual)
+    for first, want in (("wait", "retry"), ("conflict", "ConflictError"), ("", "return")):
+        def m_deser(run, a, k, n, f, first=first):
+            c = getattr(run, "_des", 0)
+            run._des = c + 1
+            if c == 0 and first:
+                return Obj(f"{API}.GetResponse", {"shmid": "", "l": 0, "rdid": "", "deser_fun": "", "error": first}, name="resp-1")
+            return Obj(f"{API}.GetResponse", {"shmid": "shm-x", "l": 4, "rdid": "r1", "deser_fun": "df", "error": ""}, name="resp-ok")
+        ip = Interp(repo, call_models={**MODELS, f"{API}.deser": m_deser}, max_while=4)
+        from ..terms import ClassRef
+        ps = ip.explore(sfi, env={}, args={"comm": Obj(f"{API}.GetRequest", {"key": "k"}, name="req"), "resp_class": ClassRef(f"{API}.GetResponse"), "timeout_sec": 60.0})
+        ctx.evals(len(ps))
+        if len(ps) != 1:
+            ctx.undecided(rid, loc(sfi), f"_send_command not deterministic on first answer {first!r}: {[(p.exit[0], vkey(p.exit[1])[:50]) for p in ps]}")
+            continue
+        p = ps[0]
+        sends = [e for e in p.effects if e.kind == "call" and e.data.get("method") == "send"]
+        if want == "retry":
+            good = p.exit[0] == "return" and isinstance(p.exit[1], Obj) and p.exit[1].name == "resp-ok" and len(sends) == 2
+        elif want == "return":
+            good = p.exit[0] == "return" and isinstance(p.exit[1], Obj) and p.exit[1].name == "resp-ok" and len(sends) == 1
+        else:
+            good = p.exit[0] == "raise" and "ConflictError" in vkey(p.exit[1])
+        if not good:
+            ctx.violation(rid, sfi.qual, loc(sfi), f"first answer {first!r}", f"when the first answer carries error {first!r} the command ends {p.exit[0]} "
+                          f"{vkey(p.exit[1])[:80]} after {len(sends)} sends; expected {want} (a 'wait' must be retried until the store can grant the request)",
+                          row={"first": first})
+        else:
+            ctx.ok(rid, loc(sfi), f"_send_command | first answer {first!r} -> {want}")
